@@ -158,31 +158,28 @@ Proof.
   - rewrite N.eqb_refl. discriminate.
 Qed.
 
-(* an event that does not (re)start m keeps m down and produces no record of m (other than the
-   at_sim_start call of a later start-up stage, which the start-up sweep makes regardless) *)
+Lemma not_of_mod_no_run m l : forallb (fun i => negb (of_mod m i)) l = true -> no_run m l.
+Proof.
+  intros H. unfold no_run. apply forallb_forall. intros i Hi. rewrite forallb_forall in H. specialize (H i Hi).
+  destruct (is_run m i) eqn:Er; [|reflexivity]. apply is_run_of_mod in Er. rewrite Er in H. discriminate.
+Qed.
+
+(* a tear-down record *)
+Definition is_end (e : erec) : bool := match e_kind e with KEnd _ => true | _ => false end.
+
+(* a step that does not (re)start m keeps m down and produces no record of m at all: the start-up
+   sweep skips inactive modules, message and wake-up events of an inactive module do nothing *)
 Lemma step_down sc w e w' m : step sc w e w' -> Down m w -> starts m e = false ->
-  Down m w' /\ no_run m (e_items e) /\
-  (forall ev, e_kind e = KLoop ev -> forallb (fun i => negb (of_mod m i)) (e_items e) = true).
+  Down m w' /\ forallb (fun i => negb (of_mod m i)) (e_items e) = true.
 Proof.
   intros Hs Hd Hst. destruct Hs as [stage m1 w Hfresh Hactive|w|w t ev f Hf].
-  - (* start-up stage *)
-    unfold start_rec in *. cbn [fst snd e_items e_kind] in *. split; [|split; [|discriminate]].
-    + destruct (N.eq_dec m1 m) as [->|Hn].
-      * assert (Hs0 : stage <> 0) by (intros ->; cbn [starts e_kind] in Hst; rewrite !N.eqb_refl in Hst; discriminate).
-        apply around_down; [exact Hd|]. intros s Hs. apply (start_cb_down sc stage m s Hs0 Hs).
-      * eapply Down_ext; [|exact Hd]. apply around_oth; [apply start_cb_ok|auto].
-    + destruct (N.eq_dec m1 m) as [->|Hn].
-      * assert (Hs0 : stage <> 0) by (intros ->; cbn [starts e_kind] in Hst; rewrite !N.eqb_refl in Hst; discriminate).
-        destruct (around_down sc 0 m (start_cb sc stage m) w Hd) as [_ ->].
-        { intros s Hs. apply (start_cb_down sc stage m s Hs0 Hs). }
-        destruct (start_cb_down sc stage m {| x_w := activate 0 m w; x_log := [] |} Hs0) as [_ ->];
-          [cbn [x_w]; apply activate_down, Hd|]. reflexivity.
-      * pose proof (around_own sc 0 m1 (start_cb sc stage m1) w (start_cb_ok _ _ _ _ _)) as Ho.
-        unfold no_run. apply forallb_forall. intros i Hi.
-        pose proof (own_not_of_mod m1 m _ Ho Hn) as Hm. rewrite forallb_forall in Hm. specialize (Hm i Hi).
-        destruct (is_run m i) eqn:Er; [|reflexivity]. apply is_run_of_mod in Er. rewrite Er in Hm. discriminate.
+  - (* start-up stage: of another module, m is inactive *)
+    unfold start_rec in *. cbn [fst snd e_items e_kind] in *.
+    destruct (N.eq_dec m1 m) as [->|Hn]; [rewrite (dn_active _ _ Hd) in Hactive; discriminate|].
+    pose proof (around_own sc 0 m1 (start_cb sc stage m1) w (start_cb_ok _ _ _ _ _)) as Ho.
+    split; [eapply Down_ext; [|exact Hd]; apply around_oth; [apply start_cb_ok|auto]|apply (own_not_of_mod m1 m _ Ho Hn)].
   - (* boot sample *)
-    cbn [boot_rec e_items e_kind]. split; [exact Hd|split; [reflexivity|]]. discriminate.
+    cbn [boot_rec e_items e_kind]. split; [exact Hd|reflexivity].
   - (* dispatched event *)
     unfold loop_rec in *. cbn [fst snd e_items e_kind] in *.
     assert (Hd' : Down m (set_fes w f)) by (eapply Down_ext; [|exact Hd]; reflexivity).
@@ -193,22 +190,20 @@ Proof.
         -- destruct (around_down sc t m (handle_message (nmods sc) (cfg sc m) t m x) (set_fes w f) Hd') as [H1 H2].
            { intros s Hs. rewrite handle_message_down; assumption. }
            rewrite H2, handle_message_down by (cbn [x_w]; apply activate_down, Hd'). cbn [x_log app].
-           split; [exact H1|split; [reflexivity|intros; reflexivity]].
+           split; [exact H1|reflexivity].
         -- destruct (around_down sc t m (async_wakeup (nmods sc) t m) (set_fes w f) Hd') as [H1 H2].
            { intros s Hs. rewrite async_wakeup_down; assumption. }
            rewrite H2, async_wakeup_down by (cbn [x_w]; apply activate_down, Hd'). cbn [x_log app].
-           split; [exact H1|split; [reflexivity|intros; reflexivity]].
+           split; [exact H1|reflexivity].
       * pose proof (process_own sc (set_fes w f) t ev) as Ho. rewrite Em in Ho.
         pose proof (own_not_of_mod m1 m _ Ho Hn) as Hm.
         split; [eapply Down_ext; [|exact Hd']; apply process_oth; rewrite Em; congruence|].
         assert (Hall : forallb (fun i => negb (of_mod m i)) (snd (process sc (set_fes w f) t ev) ++ [ISample t (mask sc (fst (process sc (set_fes w f) t ev)))]) = true).
         { rewrite forallb_app, Hm. reflexivity. }
-        split; [|intros; exact Hall].
-        unfold no_run. apply forallb_forall. intros i Hi. rewrite forallb_forall in Hall. specialize (Hall i Hi).
-        destruct (is_run m i) eqn:Er; [|reflexivity]. apply is_run_of_mod in Er. rewrite Er in Hall. discriminate.
+        exact Hall.
     + pose proof (process_own sc (set_fes w f) t ev) as Ho. rewrite Em in Ho. rewrite Ho. cbn [app].
       split; [eapply Down_ext; [|exact Hd']; apply process_oth; rewrite Em; discriminate|].
-      split; [reflexivity|intros; reflexivity].
+      reflexivity.
 Qed.
 
 Lemma step_resets sc w e w' m : step sc w e w' -> resets m e = true -> Down m w'.
@@ -234,7 +229,7 @@ Proof.
   apply (gen_inv sc (fun w tr => down_after m tr = true -> Down m w)); [discriminate|].
   intros w tr e w' HG IH Hs. rewrite down_after_snoc. unfold down_step.
   destruct (resets m e) eqn:Er; [intros _; eapply step_resets; eauto|].
-  destruct (starts m e) eqn:Est; [discriminate|]. intros Hd. eapply step_down; eauto.
+  destruct (starts m e) eqn:Est; [discriminate|]. intros Hd. eapply (proj1 (step_down sc w e w' m Hs (IH Hd) Est)).
 Qed.
 
 (* ---- tear-down records of a module that is down ---- *)
@@ -288,37 +283,26 @@ Qed.
 Theorem inert_while_down sc m pre e post :
   trace sc = pre ++ e :: post -> down_after m pre = true -> starts m e = false ->
   no_run m (e_items e) /\
-  (forall ev, e_kind e = KLoop ev -> forallb (fun i => negb (of_mod m i)) (e_items e) = true).
+  (is_end e = false -> forallb (fun i => negb (of_mod m i)) (e_items e) = true).
 Proof.
-  intros E Hd Hst. destruct (run_decomp sc) as (w & tr & HG & [(_ & _ & now & Et & _)|(_ & Et & _)]).
-  - rewrite Et in E.
-    destruct (app_split_mid _ _ _ _ _ E) as [(post' & Etr)|(pre' & -> & Eend)].
-    + destruct (gen_split sc w tr HG pre e post' Etr) as (w1 & w2 & HG1 & Hs).
-      destruct (step_down sc w1 e w2 m Hs (gen_down sc m w1 pre HG1 Hd) Hst) as (_ & H1 & H2). auto.
-    + (* a tear-down record *)
-      destruct (end_seq_split sc now (mods sc) w pre' e post Eend) as (ms1 & m1 & ms2 & Ems & Epre & Ee).
-      assert (Hdw : Down m w).
-      { apply (gen_down sc m w tr HG). unfold down_after in *. rewrite fold_left_app in Hd.
-        (* tear-down records neither reset nor start m, so the flag was already set *)
-        assert (G : forall ms w0 d, fold_left (down_step m) (snd (end_seq sc now ms w0)) d = d).
-        { induction ms as [|mm ms IH]; intros w0 d; cbn [end_seq]; [reflexivity|].
-          destruct (end_seq sc now ms (fst (end_rec sc now mm w0))) as [w3 es] eqn:Es. cbn [snd fold_left].
-          replace es with (snd (end_seq sc now ms (fst (end_rec sc now mm w0)))) by (rewrite Es; reflexivity).
-          rewrite IH. unfold down_step.
-          assert (Hr : resets m (snd (end_rec sc now mm w0)) = false).
-          { unfold resets. pose proof (at_sim_end_ok (nmods sc) (cfg sc mm) now mm {| x_w := activate now mm w0; x_log := [] |}) as [_ (l & Hl & Ul)].
-            unfold end_rec. cbn [snd e_items]. cbn [x_log app] in Hl. rewrite Hl. apply (usr_no_reset mm m l Ul). }
-          rewrite Hr. reflexivity. }
-        rewrite Epre, G in Hd. exact Hd. }
-      subst e. split; [|discriminate].
-      destruct (N.eq_dec m1 m) as [->|Hn].
-      * apply end_rec_down. eapply Down_ext; [|exact Hdw]. apply end_seq_oth.
-        pose proof (mods_nodup sc) as Hnd. rewrite Ems in Hnd. apply NoDup_remove_2 in Hnd.
-        intros C. apply Hnd. apply in_or_app. left. exact C.
-      * pose proof (end_rec_own sc now m1 (fst (end_seq sc now ms1 w))) as Ho.
-        unfold no_run. apply forallb_forall. intros i Hi.
-        pose proof (own_not_of_mod m1 m _ Ho Hn) as Hm. rewrite forallb_forall in Hm. specialize (Hm i Hi).
-        destruct (is_run m i) eqn:Er; [|reflexivity]. apply is_run_of_mod in Er. rewrite Er in Hm. discriminate.
-  - rewrite Et in E. destruct (gen_split sc w tr HG pre e post E) as (w1 & w2 & HG1 & Hs).
-    destruct (step_down sc w1 e w2 m Hs (gen_down sc m w1 pre HG1 Hd) Hst) as (_ & H1 & H2). auto.
+  intros E Hd Hst.
+  destruct (trace_cases sc pre e post E) as [(w1 & w2 & HG & Hs)|(w & tr & now & ms1 & m1 & ms2 & HG & _ & Ems & -> & ->)].
+  - destruct (step_down sc w1 e w2 m Hs (gen_down sc m w1 pre HG Hd) Hst) as [_ H]. split; [apply not_of_mod_no_run, H|intros _; exact H].
+  - (* a tear-down record *)
+    split; [|discriminate].
+    assert (Hdw : Down m w).
+    { apply (gen_down sc m w tr HG). unfold down_after in *. rewrite fold_left_app in Hd.
+      assert (G : forall ms w0 d, fold_left (down_step m) (snd (end_seq sc now ms w0)) d = d).
+      { induction ms as [|mm ms IH]; intros w0 d; cbn [end_seq]; [reflexivity|].
+        destruct (end_seq sc now ms (fst (end_rec sc now mm w0))) as [w3 es] eqn:Es. cbn [snd fold_left].
+        replace es with (snd (end_seq sc now ms (fst (end_rec sc now mm w0)))) by (rewrite Es; reflexivity).
+        rewrite IH. unfold down_step.
+        assert (Hr : resets m (snd (end_rec sc now mm w0)) = false).
+        { unfold resets. pose proof (at_sim_end_ok (nmods sc) (cfg sc mm) now mm {| x_w := activate now mm w0; x_log := [] |}) as [_ (l & Hl & Ul)].
+          unfold end_rec. cbn [snd e_items]. cbn [x_log app] in Hl. rewrite Hl. apply (usr_no_reset mm m l Ul). }
+        rewrite Hr. reflexivity. }
+      rewrite G in Hd. exact Hd. }
+    destruct (N.eq_dec m1 m) as [->|Hn].
+    + apply end_rec_down. eapply Down_ext; [|exact Hdw]. apply (end_seq_mod sc now ms1 m ms2 w Ems).
+    + apply not_of_mod_no_run. apply (own_not_of_mod m1 m); [apply end_rec_own|exact Hn].
 Qed.
